@@ -31,7 +31,7 @@ func ruleC16(c *Check, p *Prog) {
 		"R-PQ-NORMAL for the two-sided tests (monobit bit/byte, runs, binary derivative, autocorrelation, Maurer, DFT) P = erfc(|v|) and Q = erfc(v)/2 over the SAME v, whence P = 2 min(Q, 1-Q) identically; " +
 		"R-PASS in each of the 15 registry runners Pass is (P >= Alpha) on the value stored in P (min(P,P2) for the overlapping test), Alpha = 0.01. " +
 		"R-PRECOND none of the explicit input-validation panics of the 17 test entry points fires for a length >= the standard's minimum (and the test's own) with the documented parameters (a test that refuses an admissible sequence returns nothing). " +
-		"R-FINITE-GUARDS the finiteness guards of igamc (clamp, underflow cut, qk != 0, rescaling of the continued-fraction state) are present. " +
+		"R-IGAMC-IDENT igamc/igam are the Cephes recurrences (C06's obligation re-asserted: clamps, underflow cut, no state kept between calls). R-FINITE-GUARDS the finiteness guards of igamc (clamp, underflow cut, qk != 0, rescaling of the continued-fraction state) are present. " +
 		"NOT decided: finiteness, absence of NaN and the range [0,1] in general (runtime values: 0/0 in the runs test for constant input, logs of counts, differences of near-equal sums)."
 	c.Floor("R-QP-CHI", 10)
 	c.Floor("R-PQ-NORMAL", 7)
@@ -40,6 +40,12 @@ func ruleC16(c *Check, p *Prog) {
 	// "every test RETURNS ...": none of the input-validation panics fires on an admissible length / documented parameter
 	for _, pr := range []string{"C01", "C02", "C03", "C04", "C05"} {
 		checkPreconds(c, p, pr)
+	}
+	// the tail function every chi-square P/Q goes through (anchored in C16: clamp to 1 for x <= 0, 0 on underflow): identity
+	// with the Cephes recurrences, which also pins that it keeps no state between calls (a memo of the last shape is a
+	// load/store of package-level memory that the reference does not have)
+	for _, sp := range c06Specs[:2] {
+		checkEquiv(c, p, "R-IGAMC-IDENT", sp.Key, sp.Spec, sp.What)
 	}
 	for _, name := range chiFuncs {
 		fn := p.Func(pkgRoot, name)
@@ -131,13 +137,23 @@ func ruleC17(c *Check, p *Prog) {
 		"R-TAIL-DISCARD (the same tests and Maurer) the largest index read is (product of the loop trip counts) - 1 = N*blockLength - 1 < n by floor(n/b)*b <= n => bits of the discarded tail are never read; " +
 		"R-ROTATION (approximate entropy) every input read is at index (i + t) mod n with i ranging over all of [0,n) and t independent of i, and the only effects are commutative `+1` histogram increments => rotation-invariant; " +
 		"R-MIRROR (cumulative sums) the forward and backward walks differ only in reading index i versus n-1-i. " +
-		"NOT decided: rotation invariance of the overlapping-subsequence test (its sliding-window form reads the prefix separately; invariance is a property of the window multiset, decided only through C01's equivalence with the reference), complement and reversal invariances (algebraic facts about the statistics, not code shape)."
+		"R-ROTATION-EQUIV (overlapping subsequence) its sliding-window form seeds the window from the prefix and updates it bit by bit, so invariance is not visible in the access shape; it is decided as identity with the cyclic-window reference formulation (the same obligation as C01's R-EQUIV for that function), whose window multiset is rotation-invariant. " +
+		"NOT decided: complement and reversal invariances (algebraic facts about the statistics, not code shape)."
 	blocks := []string{"FrequencyWithinBlockProto", "PokerProto", "LongestRunOfOnesInABlockProto", "MatrixRankProto", "LinearComplexityProto"}
 	for _, name := range blocks {
 		checkBlockLocal(c, p, name, true)
 	}
 	checkBlockLocal(c, p, "MaurerUniversalTest", false)
 	checkRotation(c, p, "ApproximateEntropyProto")
+	// rotation invariance of the overlapping-subsequence test is not visible in its access shape (the sliding window is
+	// seeded from the prefix by subsequencepattern and then updated bit by bit); it follows from identity with the
+	// reference formulation, whose window multiset {pattern(bits[i..i+m) cyclic) : i in [0,n)} is rotation-invariant
+	// (lemma in ref/freq.go): the seed value's bit order and the update's bit order must be the same MSB-first order
+	for _, sp := range c01Specs {
+		if sp.Key == "OverlappingTemplateMatchingProto" {
+			checkEquiv(c, p, "R-ROTATION-EQUIV", sp.Key, sp.Spec, "rotation invariance through identity with the cyclic-window reference: "+sp.What)
+		}
+	}
 	checkMirror(c, p)
 }
 
